@@ -13,7 +13,11 @@ L2 (correspondence)  the real `Space.transform` / `Space.inverse_transform` / `D
     compared exactly; real normalize and log-normalize transforms within 4 ulp.
 L3 (oracle on the real code)  rows preserved, exact round trip for integers/categories, round trip
     within floating-point rounding for reals, every round-tripped point a member (Lean `memRow`),
-    shape == (len(X), transformed_n_dims), every coordinate inside `transformed_bounds`.
+    shape == (len(X), transformed_n_dims), every coordinate inside `transformed_bounds` (one pair per coordinate);
+    the object the caller handed over is unchanged after transform / inverse_transform and the values returned do not
+    depend on the container (list, tuple, ndarray of any layout) the points were held in.
+Histories on ONE Space object (every way a transformer is replaced, dimension-level ones and normalize_dimensions
+    included) are compared step by step with the state machine of Model/SpaceObject.lean.
 """
 import json
 import math
@@ -485,6 +489,10 @@ def oracle(case, run=None):
         ntd, tb = tn
         if Xt.shape != (len(X), ntd):
             fails.append(("shape", "Space.transform", None, {"shape": list(Xt.shape), "expected": [len(X), ntd]}))
+        elif len(tb) != ntd:
+            # "every coordinate inside transformed_bounds" needs one (low, high) pair per coordinate
+            fails.append(("bounds", "Space.transformed_bounds", None,
+                          {"pairs": len(tb), "transformed_n_dims": ntd, "columns_of_transform": int(Xt.shape[1])}))
         else:
             # which dimension owns which column
             owner = [j for j, s in enumerate(specs) for _ in range(tsize(s))]
@@ -850,7 +858,8 @@ def gen_history_case(rng):
     cur = [s["tr"] for s in dims]
     kinds = sorted({s["k"] for s in dims})
     for _ in range(rng.choice([1, 2, 2, 3, 4])):
-        op = rng.choice(["space-str", "space-list", "dim", "dim", "by-type", "restore-initial", "save-normalize-restore"])
+        op = rng.choice(["space-str", "space-list", "dim", "dim", "dim", "by-type", "restore-initial", "save-normalize-restore",
+                         "normalize-dimensions"])
         if op == "space-str":
             common_t = set.intersection(*[set(allowed_transforms(s)) for s in dims])
             if not common_t:
@@ -872,6 +881,9 @@ def gen_history_case(rng):
         elif op == "restore-initial":
             st = {"op": op}
             cur = [s["tr"] for s in dims]
+        elif op == "normalize-dimensions":
+            st = {"op": op}  # space.dimensions = normalize_dimensions(space.dimensions): dimension-level switches of all
+            cur = ["normalize"] * nd
         else:
             st = {"op": op}  # saved = get_transformer(); set_transformer("normalize"); [queries]; set_transformer(saved)
         st["query"] = rng.random() < 0.8
@@ -880,7 +892,8 @@ def gen_history_case(rng):
     if not steps:
         steps = [{"op": "restore-initial", "query": True, "prequery": False}]
     steps[-1]["query"] = True
-    return {"dims": dims, "X": X, "steps": steps}
+    # use0: the object is used (sizes / bounds read, transform, inverse_transform) before the first switch
+    return {"dims": dims, "X": X, "steps": steps, "use0": rng.random() < 0.6}
 
 
 def apply_step(space, st, specs, initial):
@@ -905,6 +918,11 @@ def apply_step(space, st, specs, initial):
     if st["op"] == "restore-initial":
         space.set_transformer(list(initial))
         return [("", list(initial))]
+    if st["op"] == "normalize-dimensions":
+        from deephyper.skopt.utils import normalize_dimensions
+
+        space.dimensions = normalize_dimensions(space.dimensions)
+        return [("", ["normalize"] * len(specs))]
     saved = space.get_transformer()
     space.set_transformer("normalize")
     return [("normalized", ["normalize"] * len(specs)), ("restored", saved)]
@@ -929,16 +947,103 @@ def dim_behaviour(dim, col):
     return out
 
 
+def lean_history_ops(case, initial):
+    """the steps of a history as ops of Model/SpaceObject.lean, with the (step index, sub-step label) each op ends;
+    None when the history passes through the not modelled "string" transformer"""
+    names = list(initial)
+    if "string" in names:
+        return None
+    ops, ends = [], []
+    for k, st in enumerate(case["steps"]):
+        op = st["op"]
+        if op == "space-str":
+            new = [{"o": "all", "t": st["t"]}]
+            names = [st["t"]] * len(names)
+        elif op == "space-list":
+            new = [{"o": "each", "ts": list(st["trs"])}]
+            names = list(st["trs"])
+        elif op == "dim":
+            new = [{"o": "dim", "j": st["j"], "t": st["t"]}]
+            names[st["j"]] = st["t"]
+        elif op == "by-type":
+            new = [{"o": "type", "k": st["cls"], "t": st["t"]}]
+            names = [st["t"] if s["k"] == st["cls"] else c for s, c in zip(case["dims"], names)]
+        elif op == "restore-initial":
+            new = [{"o": "each", "ts": list(initial)}]
+            names = list(initial)
+        elif op == "normalize-dimensions":
+            new = [{"o": "normdims"}]
+            names = ["normalize"] * len(names)
+        else:  # save-normalize-restore
+            new = [{"o": "all", "t": "normalize"}, {"o": "each", "ts": list(names)}]
+        if "string" in names or any(o.get("t") == "string" or "string" in o.get("ts", []) for o in new):
+            return None
+        labels = ["normalized", "restored"] if op == "save-normalize-restore" else [""]
+        for o, lab in zip(new, labels):
+            ops.append(o)
+            ends.append((k, lab))
+    return ops, ends
+
+
+def compare_layout(ck, case, where, space, run, lay, trs, trs_from_impl=False):
+    """the layout the REAL object shows after this step (get_transformer, transformed_size of every dimension,
+    transformed_n_dims, transformed_bounds) against the state machine of Model/SpaceObject.lean"""
+    if "err" in lay:
+        ck.mismatch(case, {"what": "history: the model rejects a step the implementation accepted", **where, "model": lay})
+        return
+    if lay["names"] != list(trs) and trs_from_impl:
+        # save / normalize / restore: the names restored are the ones the object's own get_transformer() returned
+        ck.mismatch(case, {"what": "history: get_transformer() of the implementation vs the state machine", **where, "impl": list(trs), "model": lay["names"]})
+        return
+    if lay["names"] != list(trs):
+        raise common.HarnessError("history bookkeeping of the harness and the Lean state machine disagree: %r vs %r" % (lay["names"], trs))
+    names = Out(lambda: list(space.get_transformer()))
+    sizes = Out(lambda: [int(dm.transformed_size) for dm in space.dimensions])
+    impl = {"names": names.val if names.exc is None else "raises " + names.kind,
+            "sizes": sizes.val if sizes.exc is None else "raises " + sizes.kind}
+    model = {"names": lay["names"], "sizes": lay["sizes"]}
+    tn = run.get("tn")
+    if tn is not None:
+        if tn.exc is None:
+            impl["ndims"] = tn.val[0]
+            impl["bounds"] = [[Fraction(x) for x in b] for b in tn.val[1]] if all(math.isfinite(x) for b in tn.val[1] for x in b) else repr(tn.val[1])
+        else:
+            impl["ndims"] = impl["bounds"] = "raises " + tn.kind
+        model["ndims"] = lay["ndims"]
+        model["bounds"] = [[unrat(a), unrat(b)] for a, b in lay["bounds"]]
+    if impl != model:
+        diff = {key: {"impl": repr(impl[key])[:300], "model": repr(model[key])[:300]} for key in model if impl[key] != model[key]}
+        ck.mismatch(case, {"what": "history: layout of the reused Space object vs the state machine (Model/SpaceObject.lean)", **where, **diff})
+
+
 def run_history(ck, d, case, l2=True):
     """executes the history on ONE Space object; after every switch the object must behave like a fresh object
     built with the transformers in force.  Returns [(clause, step index, dim index or None, detail)]."""
     from deephyper.skopt.space import Space
 
     specs0, X = case["dims"], case["X"]
-    space = Space([mk_dim(s) for s in specs0])
+    space = Space([mk_dim_any(s) for s in specs0])
     initial = space.get_transformer()
     specs = [dict(s) for s in specs0]
     failures = []
+    layouts = {}
+    if l2:
+        lo = lean_history_ops(case, [s["tr"] for s in specs0])
+        if lo is not None:
+            ops, ends = lo
+            rep = d.ask({"op": "history", "dims": [wire_dim(s) for s in specs0], "ops": ops, "L": l_table(specs0, [])})
+            for end, lay in zip(ends, rep["states"]):
+                layouts[end] = lay
+            if len(rep["states"]) != len(ops):
+                layouts["stopped"] = rep["states"][-1] if rep["states"] else None
+            ck.count("history-lean-state-machine")
+    if case.get("use0") and not any(s["tr"] == "string" for s in specs0):
+        # the object is used before the first switch (whatever it remembers of its layout is from now)
+        state0 = {"dims": specs, "X": X}
+        run0 = real_space_run(state0, space=space, prequery=True)
+        fails0 = oracle(state0, run0)
+        if fails0 and l2:
+            report(ck, state0, fails0)
     for k, st in enumerate(case["steps"]):
         o = Out(lambda: apply_step(space, st, specs, initial))
         if o.exc is not None:
@@ -972,6 +1077,12 @@ def run_history(ck, d, case, l2=True):
             fails = oracle(state, run)
             if l2:
                 fails = fails + l2_space(ck, d, state, run, fails)
+                if (k, label) in layouts:
+                    compare_layout(ck, {"kind": "history", **case}, where, space, run, layouts[(k, label)], trs,
+                                   trs_from_impl=st["op"] == "save-normalize-restore")
+                elif layouts.get("stopped") is not None:
+                    ck.mismatch({"kind": "history", **case}, {"what": "history: the model rejects a step the implementation accepted",
+                                                              **where, "model": layouts["stopped"]})
             fresh = real_space_run(state)
             ffails = oracle(state, fresh)
             for f in fails:
@@ -1024,11 +1135,20 @@ def dim_history(case, j):
             seq = [init]
         elif st["op"] == "save-normalize-restore":
             seq = ["normalize", cur]
+        elif st["op"] == "normalize-dimensions":
+            seq = ["normalize"]
         for t in seq:
             trs.append(t)
             cur = t
-    return {"dims": [case["dims"][j]], "X": [[r[j]] for r in case["X"]],
+    return {"dims": [case["dims"][j]], "X": [[r[j]] for r in case["X"]], "use0": True,
             "steps": [{"op": "dim", "j": 0, "t": t, "query": True, "prequery": False} for t in trs]}
+
+
+_PLAIN_DIM = {"k": "real", "lo": -3.0, "hi": 5.0, "prior": "uniform"}
+_PLAIN_HISTORIES = [
+    {"dims": [dict(_PLAIN_DIM, tr=a)], "X": [[-3.0], [5.0], [1.5]], "use0": True,
+     "steps": [{"op": "dim", "j": 0, "t": b, "query": True, "prequery": False}]}
+    for a, b in (("identity", "normalize"), ("normalize", "identity"))]
 
 
 def report_history(ck, d, case, failures):
@@ -1064,15 +1184,28 @@ def report_history(ck, d, case, failures):
                             break
                 break
         if sf:
+            # shrink the dimension itself: does the plainest dimension (a uniform Real) fail in the same way under one
+            # dimension-level switch of a used space?  (a failure that needs a particular kind / category count stays as it is)
+            for cand in _PLAIN_HISTORIES:
+                fs2 = run_history(ck, d, cand, l2=False)
+                same = [f for f in fs2 if f[0] == sf[0][0]]
+                if same:
+                    small, sf = cand, same
+                    break
             clause, k, _, detail = sf[0]
             s0 = small["dims"][0]
             seq = [s0["tr"]] + [st["t"] for st in small["steps"]]
             frm, to = seq[k], seq[k + 1]
             kind = f"cat[{cat_type(s0)}]" + (",n>=3" if len(s0["cats"]) >= 3 else f",n={len(s0['cats'])}") if s0["k"] == "cat" else s0["k"] + "/" + s0["prior"]
             sig = f"{kind}:{frm}->{to}"
+            # the same switches through Space.set_transformer([...]): when those are fine the failure needs a switch made
+            # on the Dimension object itself (dimensions[j].set_transformer, normalize_dimensions)
+            alt = dict(small, steps=[{"op": "space-list", "trs": [st["t"]], "query": True, "prequery": False} for st in small["steps"]])
+            api = "set_transformer" if run_history(ck, d, alt, l2=False) else "Dimension.set_transformer"
         else:
             sig = "dims=" + "+".join(sorted({dimsig(s) for s in case["dims"]}))
-        fp = f"C09|{clause}|set_transformer|{sig}"
+            api = "set_transformer"
+        fp = f"C09|{clause}|{api}|{sig}"
         if fp in done:
             continue
         done.add(fp)
@@ -1088,6 +1221,421 @@ def run_history_case(ck, d, case):
     failures = run_history(ck, d, case)
     if failures:
         report_history(ck, d, case, failures)
+
+
+# --------------------------------------------------------------------------- the caller's objects (containers)
+#
+# The property speaks of the points the caller hands over and gets back.  A caller holds them as a list, a tuple or a
+# NumPy array (a column of a results table: any memory layout, possibly read-only), and still holds them after the call:
+#   input-unchanged        transform / inverse_transform leave the object they were given bit-for-bit as it was (otherwise
+#                          "inverse_transform(transform(X)) returns the same points" is no longer about the points X);
+#   container-independent  the values returned do not depend on how the same points were held (equal to what a list of
+#                          the same points gives, which is what the model is compared with);
+#   the round-trip clauses (rows, exact / tolerance, membership) for every container, against the pristine points.
+# Returning an object that aliases the input is not a failure by itself (Identity().transform returns its argument).
+
+
+def snapshot(obj):
+    """bit-for-bit record of an object a caller holds"""
+    if isinstance(obj, np.ndarray):
+        body = [snapshot(v) for v in obj.ravel().tolist()] if obj.dtype == object else obj.tobytes()
+        base = obj.base
+        base_bytes = base.tobytes() if isinstance(base, np.ndarray) and base.dtype != object else None
+        return ("ndarray", str(obj.dtype), tuple(obj.shape), tuple(obj.strides), bool(obj.flags.writeable), body, base_bytes)
+    if isinstance(obj, (list, tuple)):
+        return (type(obj).__name__, [snapshot(v) for v in obj])
+    return (type(obj).__name__, repr(obj))
+
+
+def _readonly(a):
+    a = a.copy()
+    a.setflags(write=False)
+    return a
+
+
+def _strided(a):
+    """the same elements as every second element (1-D) / column (2-D) of a larger buffer"""
+    if a.ndim == 1:
+        big = np.zeros(2 * len(a) + 1, dtype=a.dtype)
+        big[1::2] = a
+        return big[1::2]
+    big = np.zeros((a.shape[0] + 2, 2 * a.shape[1] + 1), dtype=a.dtype)
+    big[1:-1, 1::2] = a
+    return big[1:-1, 1::2]
+
+
+def _reversed(a):
+    return a[::-1].copy()[::-1]  # negative stride
+
+
+def _array_layouts(make, two_d=False):
+    """[(suffix, factory)] memory layouts of one array"""
+    out = [("", make), ("-readonly", lambda: _readonly(make())), ("-strided", lambda: _strided(make()))]
+    if two_d:
+        out.append(("-F", lambda: np.asfortranarray(make())))
+    else:
+        out.append(("-reversed", lambda: _reversed(make())))
+    return out
+
+
+def _native_kind(s):
+    if s["k"] == "real":
+        return "f"
+    if s["k"] == "int":
+        return "i"
+    return {"str": "U", "int": "i", "float": "f", "bool": "b"}[cat_type(s)]
+
+
+def _holds(a, values, kind):
+    """does the NumPy array hold exactly these Python values (no overflow / conversion)?"""
+    if a.dtype.kind != kind or (kind in "fi" and a.dtype.itemsize != 8):
+        return False
+    return [tag(v) for v in a.ravel().tolist()] == [tag(v) for v in values]
+
+
+def col_containers(s, col):
+    """[(name, factory, strict)]: the ways a caller may hold the points of ONE dimension.  strict=False (float32): NumPy
+    computes in single precision, only `input-unchanged` is claimed."""
+    out = [("list", lambda: list(col), True), ("tuple", lambda: tuple(col), True)]
+    kind = _native_kind(s)
+    try:
+        a = np.array(col)
+    except (OverflowError, ValueError):
+        a = None
+    if a is not None and a.ndim == 1 and _holds(a, col, kind):
+        out += [("ndarray" + suf, f, True) for suf, f in _array_layouts(lambda: np.array(col))]
+    if s["k"] == "cat":
+        out.append(("ndarray-object", lambda: np.array(col, dtype=object), True))
+    if s["k"] == "int" and all(abs(v) < 2 ** 31 for v in list(col) + [s["lo"], s["hi"]]):
+        out.append(("ndarray-int32", lambda: np.array(col, dtype=np.int32), True))
+    if s["k"] == "real":
+        out.append(("ndarray-float32", lambda: np.array(col, dtype=np.float32), False))
+    return out
+
+
+def t_containers(t_ref):
+    """[(name, factory)]: the ways a caller may hold transformed values (1-D column or 2-D one-hot block)"""
+    a = np.asarray(t_ref)
+    if a.dtype == object or a.ndim not in (1, 2):
+        return []
+    out = [("list", lambda: a.tolist())]
+    if a.ndim == 1:
+        out.append(("tuple", lambda: tuple(a.tolist())))
+    out += [("ndarray" + suf, f) for suf, f in _array_layouts(lambda: a.copy(), two_d=a.ndim == 2)]
+    return out
+
+
+def t_rows(t, n):
+    """what transform returned as n rows of exact Python numbers"""
+    return matrix_rows(np.asarray(t).reshape((n, -1)))
+
+
+def same_t_rows(s, rows, ref):
+    """equal values.  A log dimension: NumPy evaluates log10 with a different loop for some memory layouts (negative
+    strides) and the results differ in the last place: 4 ulp of the log value, which the normalization divides by the range"""
+    if [len(r) for r in rows] != [len(r) for r in ref]:
+        return False
+    tol = Fraction(0)
+    if is_log(s):
+        b = s.get("base", 10)
+        la, lb = l_scalar(s["lo"], b), l_scalar(s["hi"], b)
+        tol = 4 * Fraction(math.ulp(max(abs(la), abs(lb), 1.0)))
+        if s["tr"] == "normalize":
+            tol = tol / Fraction(lb - la) + 4 * Fraction(U) if lb > la else Fraction(1)
+    for r, q in zip(rows, ref):
+        for x, y in zip(r, q):
+            if not (math.isfinite(x) and math.isfinite(y)):
+                return False
+            if abs(Fraction(x) - Fraction(y)) > tol:
+                return False
+    return True
+
+
+def same_inverse(s, vals, ref):
+    """equal Python values and kinds (reals of a log dimension: within the round-trip tolerance)"""
+    if len(vals) != len(ref):
+        return False
+    for v, r in zip(vals, ref):
+        tv, tr_ = tag(v), tag(r)
+        if tv == tr_:
+            continue
+        if s["k"] == "real" and is_log(s) and tv["t"] == "f" and tr_["t"] == "f" and \
+                abs(unrat(tv["v"]) - unrat(tr_["v"])) <= Fraction(rt_tolerance(s, float(r))):
+            continue
+        return False
+    return True
+
+
+def roundtrip_fails(s, col, back):
+    """the round-trip clauses of the property for one dimension: [(clause, detail)]"""
+    if len(back) != len(col):
+        return [("rows", {"rows_in": len(col), "rows_out": len(back)})]
+    out = []
+    for i, (x, y) in enumerate(zip(col, back)):
+        if s["k"] == "real":
+            if not (isinstance(y, (float, np.floating)) and math.isfinite(y) and abs(float(y) - x) <= rt_tolerance(s, x)):
+                out.append(("roundtrip-tol", {"row": i, "x": x, "back": repr(y), "tol": rt_tolerance(s, x)}))
+        elif tag(y) != tag(x):
+            out.append(("roundtrip-exact", {"row": i, "x": repr(x), "back": repr(y)}))
+        if not member_py(s, y):
+            out.append(("member", {"row": i, "x": repr(x), "back": repr(y)}))
+    return out
+
+
+_API = {"real": "Real", "int": "Integer", "cat": "Categorical"}
+
+
+def container_dim_fails(s, col, counts=None):
+    """one dimension object, the same points held in every kind of container: [(clause, api, container, detail)]"""
+    dim = mk_dim(s)
+    n = len(col)
+    api_t, api_i = _API[s["k"]] + ".transform", _API[s["k"]] + ".inverse_transform"
+    ref_t = Out(lambda: dim.transform(list(col)))
+    if ref_t.exc is not None:
+        return [("raises:" + ref_t.kind, api_t, "list", repr(ref_t.exc))]
+    ref_rows = Out(lambda: t_rows(ref_t.val, n))
+    ref_inv = Out(lambda: list(dim.inverse_transform(ref_t.val)))
+    if ref_rows.exc is not None or ref_inv.exc is not None:
+        return [("raises:" + (ref_rows.kind if ref_rows.exc is not None else ref_inv.kind),
+                 api_t if ref_rows.exc is not None else api_i, "list", repr(ref_rows.exc or ref_inv.exc))]
+    fails = []
+    for name, make, strict in col_containers(s, col):
+        if counts is not None:
+            counts("container:" + name)
+        c = make()
+        before = snapshot(c)
+        t = Out(lambda: dim.transform(c))
+        if snapshot(c) != before:
+            fails.append(("input-unchanged", api_t, name, {"points": [repr(v) for v in col], "now": repr(np.asarray(c).tolist())[:300]}))
+        if t.exc is not None:
+            if strict:
+                fails.append(("raises:" + t.kind, api_t, name, repr(t.exc)))
+            continue
+        if strict:
+            rows = Out(lambda: t_rows(t.val, n))
+            if rows.exc is not None or not same_t_rows(s, rows.val, ref_rows.val):
+                fails.append(("container-independent", api_t, name, {"from_list": ref_rows.val[:4], "from_container": repr(rows.val if rows.exc is None else rows.exc)[:300]}))
+        # the round trip goes on with the object transform returned (it may be, or share memory with, the caller's)
+        mid = snapshot(t.val)
+        inv = Out(lambda: list(dim.inverse_transform(t.val)))
+        if snapshot(t.val) != mid:
+            fails.append(("input-unchanged", api_i, name, {"what": "the transformed values handed to inverse_transform were overwritten"}))
+        if snapshot(c) != before and not any(f[0] == "input-unchanged" and f[2] == name for f in fails):
+            fails.append(("input-unchanged", api_i, name, {"what": "the points handed to transform were overwritten by inverse_transform",
+                                                           "points": [repr(v) for v in col], "now": repr(np.asarray(c).tolist())[:300]}))
+        if not strict:
+            continue
+        if inv.exc is not None:
+            fails.append(("raises:" + inv.kind, api_i, name, repr(inv.exc)))
+            continue
+        if not same_inverse(s, inv.val, ref_inv.val):
+            fails.append(("container-independent", api_i, name, {"from_list": [repr(v) for v in ref_inv.val[:4]], "from_container": [repr(v) for v in inv.val[:4]]}))
+        fails += [(cl, api_i, name, det) for cl, det in roundtrip_fails(s, col, inv.val)]
+    # transformed values held in every kind of container
+    for name, make in t_containers(ref_t.val):
+        if counts is not None:
+            counts("t-container:" + name)
+        c = make()
+        before = snapshot(c)
+        inv = Out(lambda: list(dim.inverse_transform(c)))
+        if snapshot(c) != before:
+            fails.append(("input-unchanged", api_i, "Xt:" + name, {"what": "the transformed values handed to inverse_transform were overwritten"}))
+        if inv.exc is not None:
+            fails.append(("raises:" + inv.kind, api_i, "Xt:" + name, repr(inv.exc)))
+        elif not same_inverse(s, inv.val, ref_inv.val):
+            fails.append(("container-independent", api_i, "Xt:" + name, {"from_list": [repr(v) for v in ref_inv.val[:4]], "from_container": [repr(v) for v in inv.val[:4]]}))
+    return fails
+
+
+def space_containers(specs, X):
+    """[(name, factory)]: the ways a caller may hold a list of points of the whole space"""
+    out = [("list-of-lists", lambda: [list(r) for r in X]), ("list-of-tuples", lambda: [tuple(r) for r in X]),
+           ("tuple-of-tuples", lambda: tuple(tuple(r) for r in X)),
+           ("list-of-ndarrays", lambda: [np.array(list(r), dtype=object) for r in X])]
+
+    def obj():
+        a = np.empty((len(X), len(specs)), dtype=object)
+        for i, r in enumerate(X):
+            for j, v in enumerate(r):
+                a[i, j] = v
+        return a
+    out += [("ndarray-object" + suf, f) for suf, f in _array_layouts(obj, two_d=True)]
+    kinds = {_native_kind(s) for s in specs}
+    if len(kinds) == 1 and all(s["k"] == specs[0]["k"] for s in specs):
+        try:
+            a = np.array([list(r) for r in X])
+        except (OverflowError, ValueError):
+            a = None
+        if a is not None and a.ndim == 2 and _holds(a, [v for r in X for v in r], next(iter(kinds))):
+            out += [("ndarray" + suf, f) for suf, f in _array_layouts(lambda: np.array([list(r) for r in X]), two_d=True)]
+    return out
+
+
+def container_space_fails(case, counts=None):
+    """one Space object, the same points / transformed points held in every kind of container"""
+    from deephyper.skopt.space import Space
+
+    specs, X = case["dims"], case["X"]
+    sp = Out(lambda: Space([mk_dim(s) for s in specs]))
+    if sp.exc is not None:
+        return [("raises:" + sp.kind, "Space", "list-of-lists", repr(sp.exc))]
+    sp = sp.val
+    ref_t = Out(lambda: sp.transform([list(r) for r in X]))
+    if ref_t.exc is not None:
+        return [("raises:" + ref_t.kind, "Space.transform", "list-of-lists", repr(ref_t.exc))]
+    ref_rows = Out(lambda: matrix_rows(ref_t.val))
+    if ref_rows.exc is not None or np.asarray(ref_t.val).ndim != 2:
+        return [("shape", "Space.transform", "list-of-lists", "not a numeric matrix: " + repr(ref_t.val)[:200])]
+    ref_rows = ref_rows.val
+    ref_inv = Out(lambda: [list(r) for r in sp.inverse_transform(ref_t.val)])
+    if ref_inv.exc is not None:
+        return [("raises:" + ref_inv.kind, "Space.inverse_transform", "list-of-lists", repr(ref_inv.exc))]
+    fails = []
+
+    def inverse_differs(rows):
+        if [len(r) for r in rows] != [len(r) for r in ref_inv.val]:
+            return True
+        return any(not same_inverse(s, [r[j] for r in rows], [r[j] for r in ref_inv.val]) for j, s in enumerate(specs))
+
+    for name, make in space_containers(specs, X):
+        if counts is not None:
+            counts("container:X:" + name)
+        c = make()
+        before = snapshot(c)
+        t = Out(lambda: sp.transform(c))
+        if snapshot(c) != before:
+            fails.append(("input-unchanged", "Space.transform", name, {"points": repr(X)[:300], "now": repr(np.asarray(c, dtype=object).tolist())[:300]}))
+        if t.exc is not None:
+            fails.append(("raises:" + t.kind, "Space.transform", name, repr(t.exc)))
+            continue
+        rows = Out(lambda: matrix_rows(t.val))
+        if rows.exc is not None or [[Fraction(v) if math.isfinite(v) else repr(v) for v in r] for r in rows.val] != \
+                [[Fraction(v) if math.isfinite(v) else repr(v) for v in r] for r in ref_rows]:
+            fails.append(("container-independent", "Space.transform", name, {"from_list": ref_rows[:3], "from_container": repr(rows.val if rows.exc is None else rows.exc)[:300]}))
+        mid = snapshot(t.val)
+        inv = Out(lambda: [list(r) for r in sp.inverse_transform(t.val)])
+        if snapshot(t.val) != mid:
+            fails.append(("input-unchanged", "Space.inverse_transform", name, {"what": "the matrix handed to inverse_transform was overwritten"}))
+        if snapshot(c) != before and not any(f[0] == "input-unchanged" and f[2] == name for f in fails):
+            fails.append(("input-unchanged", "Space.inverse_transform", name, {"what": "the points handed to transform were overwritten by inverse_transform"}))
+        if inv.exc is not None:
+            fails.append(("raises:" + inv.kind, "Space.inverse_transform", name, repr(inv.exc)))
+        elif inverse_differs(inv.val):
+            fails.append(("container-independent", "Space.inverse_transform", name, {"from_list": repr(ref_inv.val[:3]), "from_container": repr(inv.val[:3])}))
+    for name, make in t_containers(ref_t.val):
+        if counts is not None:
+            counts("t-container:Xt:" + name)
+        c = make()
+        before = snapshot(c)
+        inv = Out(lambda: [list(r) for r in sp.inverse_transform(c)])
+        if snapshot(c) != before:
+            fails.append(("input-unchanged", "Space.inverse_transform", "Xt:" + name, {"what": "the matrix handed to inverse_transform was overwritten"}))
+        if inv.exc is not None:
+            fails.append(("raises:" + inv.kind, "Space.inverse_transform", "Xt:" + name, repr(inv.exc)))
+        elif inverse_differs(inv.val):
+            fails.append(("container-independent", "Space.inverse_transform", "Xt:" + name, {"from_list": repr(ref_inv.val[:3]), "from_container": repr(inv.val[:3])}))
+    # the dimension-level reference is the column block of the space-level one (Space.transform packs by dimension)
+    start = 0
+    for j, s in enumerate(specs):
+        w = tsize(s)
+        col = [r[j] for r in X]
+        dt = Out(lambda: t_rows(mk_dim(s).transform(list(col)), len(X)))
+        block = [r[start:start + w] for r in ref_rows]
+        start += w
+        if dt.exc is None and not same_t_rows(dict(s, prior="uniform") if s["k"] != "cat" else s, dt.val, block):
+            fails.append(("container-independent", _API[s["k"]] + ".transform", "column-of-Space.transform",
+                          {"dimension": dimsig(s), "own": dt.val[:3], "in_space": block[:3]}))
+    return fails
+
+
+def gen_container_case(rng):
+    base = 2 if rng.random() < 0.2 else 10
+    nd = rng.choice([1, 1, 2, 3, 4])
+    dims = [gen_dim(rng, base) for _ in range(nd)]
+    r = rng.random()
+    if r < 0.25:  # homogeneous spaces (the caller can hold them as one float64 / int64 / string array)
+        k = rng.choice(["real", "int", "cat"])
+        dims = []
+        while len(dims) < nd:
+            s = gen_dim(rng, base)
+            if s["k"] == k and (k != "cat" or cat_type(s) == "str"):
+                dims.append(s)
+    m = rng.choice([1, 2, 3, 6])
+    X = [[gen_point(rng, s) for s in dims] for _ in range(m)]
+    return {"dims": dims, "X": X}
+
+
+_CONTAINER_ORDER = ["list", "tuple", "ndarray", "ndarray-readonly", "ndarray-strided", "ndarray-reversed", "ndarray-F", "ndarray-object",
+                    "ndarray-int32", "ndarray-float32"]
+
+
+def _container_rank(name):
+    base = name.split(":")[-1]
+    return (name.count(":"), _CONTAINER_ORDER.index(base) if base in _CONTAINER_ORDER else len(_CONTAINER_ORDER), name)
+
+
+def report_container(ck, case, fails, level):
+    """one ck.fail per (clause, API, dimension signature), named by the plainest container that shows it, shrunk to one
+    dimension (space level) and to the fewest rows"""
+    seen = set()
+    for clause, api, name, detail in sorted(fails, key=lambda f: (f[0], f[1], _container_rank(f[2]))):
+        if (clause, api) in seen:
+            continue
+        seen.add((clause, api))
+        small = case
+        rerun = (lambda c: container_dim_fails(c["dims"][0], [r[0] for r in c["X"]])) if level == "dim" else container_space_fails
+
+        def still(c):
+            return [f for f in rerun(c) if f[0] == clause and f[1] == api]
+        if level == "space" and len(case["dims"]) > 1:
+            for j in range(len(case["dims"])):
+                sub = single_dim_case(case, j)
+                if still(sub):
+                    small = sub
+                    break
+        for i in range(len(small["X"])):
+            one = dict(small, X=[small["X"][i]])
+            if still(one):
+                small = one
+                break
+        # plain bounds, when the failure does not need the generated ones
+        if len(small["dims"]) == 1 and small["dims"][0]["k"] != "cat" and len(small["X"]) == 1:
+            s0 = small["dims"][0]
+            plain = dict(s0, lo=1.0, hi=8.0) if s0["k"] == "real" else dict(s0, lo=1, hi=8)
+            plain.pop("base", None)
+            for x in ((2.0, 1.0, 8.0) if s0["k"] == "real" else (2, 1, 8)):
+                cand = dict(small, dims=[plain], X=[[x]])
+                if still(cand):
+                    small = cand
+                    break
+        sf = sorted(still(small), key=lambda f: _container_rank(f[2]))
+        if sf:
+            clause, api, name, detail = sf[0]
+        sig = (dimsig(small["dims"][0]) if len(small["dims"]) == 1 else "dims=" + "+".join(sorted({dimsig(s) for s in small["dims"]})))
+        fp = f"C09|{clause}|{api}|{sig},input={name}"
+        ck.fail(fp, f"{clause} fails for {api} on a {sig} dimension when the points are held as {name}",
+                {"kind": "container", "level": level, **small}, {"container": name, "detail": detail})
+
+
+def run_container_case(ck, d, case):
+    """the same points in every container, through every Dimension / Space entry point"""
+    ck.case({"kind": "container", **case})
+    ck.count("container-case")
+    for j, s in enumerate(case["dims"]):
+        col = [r[j] for r in case["X"]]
+        fails = container_dim_fails(s, col, counts=ck.count)
+        if fails:
+            report_container(ck, {"dims": [s], "X": [[v] for v in col]}, fails, "dim")
+    fails = container_space_fails(case, counts=ck.count)
+    if fails:
+        report_container(ck, case, fails, "space")
+    # the list-held reference is what the model is compared with
+    run = real_space_run(case)
+    ofails = oracle(case, run)
+    if ofails:
+        report(ck, case, ofails)
+    for f in l2_space(ck, d, case, run, ofails):
+        report(ck, case, [f])
 
 
 # --------------------------------------------------------------------------- spaces built the other ways
@@ -1413,8 +1961,13 @@ def run(ck):
                "all-integer spaces with uniform ints up to +-(2^63-1) and int categories of any size; "
                "categories str/int/float/bool x label/onehot/normalize/identity(numeric)), 1..50 member rows on / next to the "
                "bounds and inside; arbitrary transformed points; malformed per-dimension calls; histories of 1-4 set_transformer "
-               "switches (space string / per-dimension list / by type / dimension-level / save-normalize-restore, incl. the "
-               "pass-through 'string' transform) on ONE Space object with queries after every switch; spaces built the other ways "
+               "switches (space string / per-dimension list / by type / dimension-level / normalize_dimensions / save-normalize-restore, "
+               "incl. the pass-through 'string' transform) on ONE Space object, used before the first switch or not, with queries after "
+               "every switch and the layout (get_transformer, sizes, transformed_n_dims, transformed_bounds) compared with the Lean state "
+               "machine of Model/SpaceObject.lean; the same points / transformed points held as list, tuple, float64 / int64 / string / "
+               "object / int32 / float32 ndarray (contiguous, read-only, strided, negative stride, Fortran order) through every "
+               "Dimension / Space transform and inverse_transform (caller's object unchanged, values independent of the container, "
+               "round trip); spaces built the other ways "
                "(HpProblem -> convert_to_skopt_space [-> normalize_dimensions], check_dimension shorthands, Space.from_yaml); "
                "verified Lean checkers (shape, bounds, round trip) on the real outputs; corpus first; "
                "non-trivial = at least one dimension that is not real/uniform/identity")
@@ -1431,6 +1984,8 @@ def run(ck):
             ck.count("corpus")
             if "steps" in case:
                 run_history_case(ck, d, {k: v for k, v in case.items() if k != "kind"})
+            elif case.get("kind") == "container":
+                run_container_case(ck, d, {"dims": case["dims"], "X": case["X"]})
             elif "X" in case:
                 run_space_case(ck, d, case, "corpus:" + name)
         probe_big_integer_log(ck, d)
@@ -1441,7 +1996,7 @@ def run(ck):
                 ck.count("dim:" + dimsig(s))
             ck.count("allint-space")
             run_space_case(ck, d, case, "allint-space")
-        n_space = ck.pick(450, 6000)
+        n_space = ck.pick(400, 6000)
         for _ in range(n_space):
             case = gen_space_case(rng)
             for s in case["dims"]:
@@ -1452,11 +2007,13 @@ def run(ck):
             run_space_case(ck, d, case, "space", nontrivial=nontriv)
         for _ in range(ck.pick(250, 3000)):
             run_tpoint_case(ck, d, rng)
-        for _ in range(ck.pick(350, 3000)):
+        for _ in range(ck.pick(260, 3000)):
             run_history_case(ck, d, gen_history_case(rng))
+        for _ in range(ck.pick(120, 1500)):
+            run_container_case(ck, d, gen_container_case(rng))
         for _ in range(ck.pick(120, 1000)):
             problem_space_case(ck, d, rng)
-        for _ in range(ck.pick(150, 1200)):
+        for _ in range(ck.pick(120, 1200)):
             shorthand_space_case(ck, d, rng)
         for _ in range(ck.pick(300, 3000)):
             item = dim_malformed_cases(rng)
@@ -1472,6 +2029,11 @@ def replay(ck, case):
             fs = run_history(ck, d, case)
             print("replay: history failures on the current tree:", [(f[0], "step %d" % f[1]) for f in fs] or "none")
             run_history_case(ck, d, {k: v for k, v in case.items() if k != "kind"})
+        elif case.get("kind") == "container":
+            c = {"dims": case["dims"], "X": case["X"]}
+            fs = container_space_fails(c) + [f for j, s in enumerate(c["dims"]) for f in container_dim_fails(s, [r[j] for r in c["X"]])]
+            print("replay: container failures on the current tree:", sorted({(f[0], f[1], f[2]) for f in fs}) or "none")
+            run_container_case(ck, d, c)
         elif "X" in case:
             fails = oracle(case)
             print("replay: oracle failures on the current tree:", [(f[0], f[1]) for f in fails] or "none")
